@@ -69,8 +69,11 @@ pub fn catalog() -> Arc<Cat> {
 ///   f         QDCOUNT=0, opcode QUERY   -> FORMERR, no question
 ///   m         QDCOUNT=2                 -> no response at all (send_response = false before RRL)
 ///   o<label>  opcode 4 (NOTIFY), `<label>.example.` -> NOTIMP, exempt from RRL
+///   v<label>  `<label>.example.` A with an OPT of EDNS version 1 -> BADVERS (extended RCODE 16: an
+///             RCODE whose low four bits are 0), always carries an OPT
 pub fn query(kind: &str, edns: bool, id: u16) -> Vec<u8> {
     let (k, label) = kind.split_at(1);
+    let edns = edns || k == "v";
     let label = label.as_bytes();
     let mut m = vec![0u8; 12];
     m[0..2].copy_from_slice(&id.to_be_bytes());
@@ -83,6 +86,7 @@ pub fn query(kind: &str, edns: bool, id: u16) -> Vec<u8> {
         "f" => (None, 0, 0, 0),
         "m" => (Some(wire(&[b"a", b"example"])), 1, 0, 2),
         "o" => (Some(wire(&[label, b"example"])), 1, 4, 1),
+        "v" => (Some(wire(&[label, b"example"])), 1, 0, 1),
         _ => panic!("unknown query kind {kind}"),
     };
     m[2] = opcode << 3;
@@ -96,7 +100,8 @@ pub fn query(kind: &str, edns: bool, id: u16) -> Vec<u8> {
     }
     if edns {
         m[11] = 1; // ARCOUNT
-        m.extend_from_slice(&[0, 0, 41, 0x04, 0xd0, 0, 0, 0, 0, 0, 0]);
+        let version = if k == "v" { 1 } else { 0 };
+        m.extend_from_slice(&[0, 0, 41, 0x04, 0xd0, 0, version, 0, 0, 0, 0]);
     }
     m
 }
